@@ -321,6 +321,23 @@ def ob_initial(dec, path, timeout=30):
             problems.append('decode writes %s directly (line %d)' % (n.value.id, n.lineno))
         if isinstance(n, ast.While) and 'any(signs)' not in ast.unparse(n.test):
             problems.append('sweep loop does not stop on `not any(signs)`')
+    # the dict handed to every sweep_move call is the very dict whose to_bsf is returned, and decode itself never calls a method on it
+    # (update / pop / clear ...) nor rebinds it: otherwise "accumulated correction" is no longer what sweep_move toggles - undecided here, the
+    # step-by-step run-time contract decides
+    n_sm = 0
+    for n in ast.walk(de.node):
+        if isinstance(n, ast.Call) and ast.unparse(n.func) == 'self.sweep_move':
+            n_sm += 1
+            if len(n.args) < 2 or ast.unparse(n.args[0]) != 'signs' or ast.unparse(n.args[1]) != 'correction':
+                unrec.append('sweep_move is called on %s (line %d), not on (signs, correction)' % (ast.unparse(n)[:60], n.lineno))
+        if isinstance(n, ast.Call) and isinstance(n.func, ast.Attribute) and isinstance(n.func.value, ast.Name) and n.func.value.id == 'correction':
+            unrec.append('decode calls correction.%s (line %d)' % (n.func.attr, n.lineno))
+    if n_sm == 0:
+        unrec.append('decode never calls self.sweep_move')
+    n_bind = sum(1 for n in ast.walk(de.node) if isinstance(n, (ast.Assign, ast.AnnAssign, ast.AugAssign))
+                 for t in (n.targets if isinstance(n, ast.Assign) else [n.target]) for t_ in ast.walk(t) if isinstance(t_, ast.Name) and t_.id == 'correction')
+    if n_bind != 1:
+        unrec.append('correction is bound %d times in decode' % n_bind)
     if unrec and not problems:
         raise Unsupported('source shape not recognised: %s' % unrec)
     return dict(verdict='refuted' if problems else 'discharged', model=None, backend='pyvc-structural', seconds=0, kind='state',
